@@ -39,6 +39,7 @@ const (
 	RegionJump
 )
 
+//go:nocheckptr
 func raw(addr uintptr, n int) []byte {
 	return unsafe.Slice((*byte)(unsafe.Pointer(addr)), n)
 }
@@ -114,6 +115,9 @@ type Diff struct {
 }
 
 // Diffs returns the runs of bytes that differ from the pristine image.
+// (norace: the oracle reads text that other simulated tasks write under goom's locks.)
+//
+//go:norace
 func (im *Image) Diffs() []Diff {
 	live := raw(im.Start, len(im.Pristine))
 	if bytes.Equal(live, im.Pristine) {
@@ -152,6 +156,8 @@ func (im *Image) Diffs() []Diff {
 // RegionJump region that differs at all holds a complete goom entry jump whose operand points at
 // a function value with a code pointer inside the text section. It returns "" or a description
 // of the first violation.
+//
+//go:norace
 func (im *Image) Check(allowed []Region) string {
 	diffs := im.Diffs()
 	for _, d := range diffs {
@@ -186,6 +192,9 @@ func (im *Image) Check(allowed []Region) string {
 
 // CheckJump checks that the 13 bytes at addr are `nop; movabs rdx, imm64; jmp [rdx]` and that
 // imm64 points to readable memory whose first word is a text address.
+//
+//go:nocheckptr
+//go:norace
 func (im *Image) CheckJump(addr uintptr) string {
 	b := raw(addr, 13)
 	if b[0] != 0x90 || b[1] != 0x48 || b[2] != 0xBA || b[11] != 0xFF || b[12] != 0x22 {
@@ -206,6 +215,8 @@ func (im *Image) CheckJump(addr uintptr) string {
 }
 
 // Equal reports whether the live text equals the pristine image.
+//
+//go:norace
 func (im *Image) Equal() bool {
 	return bytes.Equal(raw(im.Start, len(im.Pristine)), im.Pristine)
 }
